@@ -110,6 +110,29 @@ def _is_module_or_class_const(env, a):
     return False
 
 
+def _struct_object(env, e):
+    """the `struct.Struct(fmt)` call an expression denotes: written in place, a local bound once, a module-level
+    constant, or a class-level constant reached through cls / self / the class name; else the expanded expression."""
+    from .rules.util import class_const, module_const
+
+    obj = _expanded(env, e)
+
+    def is_struct(x):
+        return isinstance(x, ast.Call) and norm(x.func) in ("struct.Struct", "Struct") and x.args
+    if is_struct(obj):
+        return obj
+    if isinstance(obj, ast.Name):
+        v = module_const(env.func, obj.id)
+        if is_struct(v):
+            return v
+    if isinstance(obj, ast.Attribute) and isinstance(obj.value, ast.Name) and (
+            obj.value.id in ("self", "cls") or (env.func.cls is not None and obj.value.id == env.func.cls.name)):
+        v = class_const(env.prog, env.func, obj.attr)
+        if is_struct(v):
+            return v
+    return obj
+
+
 def _pack_call(env, e):
     """(format expr, [value args]) when `e` packs with the struct module: struct.pack(fmt, ...), a precompiled
     `struct.Struct(fmt)` object's .pack(...), or a name bound once to such a bound method; else None."""
@@ -120,7 +143,7 @@ def _pack_call(env, e):
         return e.args[0], list(e.args[1:])
     target = e.func
     if isinstance(target, ast.Attribute) and target.attr == "pack":
-        obj = _expanded(env, target.value)
+        obj = _struct_object(env, target.value)
         if isinstance(obj, ast.Call) and norm(obj.func) in ("struct.Struct", "Struct") and obj.args:
             return obj.args[0], list(e.args)
     if isinstance(target, ast.Name):
@@ -169,6 +192,11 @@ def _enc_block(env, stmts, acc):
                 # a provenance-named local (loop element, grouped mapping) is re-bound: whatever is encoded from it
                 # afterwards is no longer "the caller's element as given"
                 env.subst[t.id] = "<rebound %s = %s>" % (t.id, env.canon(st.value))
+                continue
+            if isinstance(t, ast.Name) and isinstance(st.value, ast.Name) and st.value.id in acc and env.lists.get(st.value.id):
+                # another name for a list accumulator (`topics = chunks`): the same list object
+                acc[t.id] = acc[st.value.id]
+                env.lists[t.id] = True
                 continue
             if isinstance(t, ast.Name):
                 env.assigned.setdefault(t.id, []).append(st.value)
@@ -372,6 +400,32 @@ def _bind_loop(env, st):
         env.subst[tgt.id] = "<each %s>" % it
 
 
+def _list_terms(env, a, acc):
+    """terms of the concatenation of a list of byte strings: an accumulator list, a literal, a comprehension,
+    `list(x)`, or `x + y` of those; None when it is not one"""
+    if isinstance(a, ast.Name) and a.id in acc:
+        return list(acc[a.id])
+    if isinstance(a, (ast.ListComp, ast.GeneratorExp)):
+        return _comp_loop(env, a, acc)
+    if isinstance(a, (ast.List, ast.Tuple)):
+        items = []
+        for x in a.elts:
+            if isinstance(x, ast.Starred):
+                sub = _list_terms(env, x.value, acc)
+                items += sub if sub is not None else [("OPAQUE", norm(x))]
+            else:
+                items += _enc_expr(env, x, acc) or [("OPAQUE", norm(x))]
+        return items
+    if isinstance(a, ast.Call) and norm(a.func) in ("list", "tuple") and len(a.args) == 1:
+        return _list_terms(env, a.args[0], acc)
+    if isinstance(a, ast.BinOp) and isinstance(a.op, ast.Add):
+        l, r_ = _list_terms(env, a.left, acc), _list_terms(env, a.right, acc)
+        if l is None or r_ is None:
+            return None
+        return l + r_
+    return None
+
+
 def _enc_expr(env, e, acc, allow_none=False):
     """terms for a bytes-valued expression, or None if it is not one."""
     if isinstance(e, ast.BinOp) and isinstance(e.op, ast.Add):
@@ -390,19 +444,8 @@ def _enc_expr(env, e, acc, allow_none=False):
                 return [("STR", env.canon(e.args[0]), last.split("_")[-1])]  # kind: ascii / text / bytes
             return [(WRITERS[last], env.canon(e.args[0]))]
         if fn == 'b"".join' or fn == "b''.join":
-            a = e.args[0]
-            if isinstance(a, ast.Name) and a.id in acc:
-                return list(acc[a.id])
-            if isinstance(a, (ast.ListComp, ast.GeneratorExp)):
-                lp = _comp_loop(env, a, acc)
-                if lp is not None:
-                    return lp
-            if isinstance(a, (ast.List, ast.Tuple)):
-                items = []
-                for x in a.elts:
-                    items += _enc_expr(env, x, acc) or [("OPAQUE", norm(x))]
-                return items
-            return [("OPAQUE", norm(e))]
+            items = _list_terms(env, e.args[0], acc)
+            return items if items is not None else [("OPAQUE", norm(e))]
         callee = env.prog.resolve_call(env.func, e)
         if callee is not None and callee.module.name == "kafkacodec" and ("encode" in callee.name):
             if callee.name == "_encode_message_set":
@@ -564,9 +607,42 @@ class DecEnv(object):
         self.copies = {}  # local -> canonical text of what it was copied from (`n = header[1]`, `left = count`)
 
 
-def decoder_terms(prog, func):
+class _Specialise(ast.NodeTransformer):
+    """the body of a decoder for given constant parameters: names replaced, decided `if`s folded"""
+
+    def __init__(self, consts):
+        self.consts = consts
+
+    def visit_Name(self, n):
+        if isinstance(n.ctx, ast.Load) and n.id in self.consts:
+            return ast.copy_location(_copy(self.consts[n.id]), n)
+        return n
+
+    def visit_FunctionDef(self, n):
+        return n
+
+    def visit_If(self, n):
+        self.generic_visit(n)
+        t = n.test
+        neg = False
+        while isinstance(t, ast.UnaryOp) and isinstance(t.op, ast.Not):
+            t, neg = t.operand, not neg
+        if isinstance(t, ast.Constant):
+            taken = n.body if (bool(t.value) != neg) else n.orelse
+            return taken or [ast.Pass()]
+        return n
+
+
+def decoder_terms(prog, func, consts=None):
+    """consts: parameter name -> constant expression the decoder is specialised for (a per-version variant selected by
+    its caller with constant arguments: a format string, a flag)"""
     env = DecEnv(prog, func)
-    terms = _dec_block(env, func.body)
+    body = func.body
+    if consts:
+        import copy
+        mod = ast.Module(body=copy.deepcopy(list(func.body)), type_ignores=[])
+        body = _Specialise(consts).visit(mod).body
+    terms = _dec_block(env, body)
     return _dec_norm(terms), env
 
 
@@ -604,6 +680,17 @@ def _dec_block(env, stmts):
                 out[:] = [_rename_leaf(t, ren) for t in out]
                 env.tuple_bound.remove(tb[0])
                 env.destructured = getattr(env, "destructured", set()) | {st.value.id}
+                continue
+        # `a, b, c = fields[:3]` : a prefix of the whole-tuple name is destructured (the rest stays `fields[k]`, unused)
+        if isinstance(st, ast.Assign) and len(st.targets) == 1 and isinstance(st.targets[0], (ast.Tuple, ast.List)) and isinstance(
+                st.value, ast.Subscript) and isinstance(st.value.value, ast.Name) and isinstance(st.value.slice, ast.Slice) and \
+                st.value.slice.lower is None and st.value.slice.step is None and isinstance(st.value.slice.upper, ast.Constant):
+            tb = [x for x in env.tuple_bound if x[0] == st.value.value.id]
+            k = st.value.slice.upper.value
+            if tb and isinstance(k, int) and len(st.targets[0].elts) == k <= tb[0][1] and all(isinstance(e, ast.Name) for e in st.targets[0].elts):
+                ren = {"%s[%d]" % (st.value.value.id, i): e.id for i, e in enumerate(st.targets[0].elts)}
+                out[:] = [_rename_leaf(t, ren) for t in out]
+                env.destructured = getattr(env, "destructured", set()) | {st.value.value.id}
                 continue
         # plain copies of a leaf or a count (`n = header[1]`, `remaining = count`)
         if isinstance(st, ast.Assign) and len(st.targets) == 1 and isinstance(st.targets[0], ast.Name) and isinstance(st.value, (ast.Name, ast.Subscript)):
